@@ -26,3 +26,4 @@ impl PhysLayer {
     { unimplemented!() }
 }
 //@trusted PhysLayer::{read,write}: ghost-wire environment model (read copies n<=min(room,pending) bytes from the front of pending, n=0 is EOF; write appends the slice to the sent log); tokio / OS not modelled
+//@include-if display frag/display_phys.tpl
